@@ -246,18 +246,21 @@ NF(e, budget) ==
     [] OTHER -> FBUn(e.op, NF(e.a, budget), e.b)
 Normalize(e, budget) == NF(FullyReduce(e, budget).e, budget)
 
-\* ---- what "rule-free" means (C11): no fold, no reducer applies at any node
-RECURSIVE NoRuleApplies(_)
-NoRuleApplies(e) ==
-  /\ IsLeaf(e) \/ HasVars(e) \/ Val(e, <<>>).k = "undef"          \* nothing left to fold
-  /\ IsLeaf(e) \/ Reducers(e).e.op = "none"
-  /\ \A j \in 1..Len(Kids(e)) : NoRuleApplies(Kids(e)[j])
-\* memo flags are truthful: a flagged node is rule-free; a failed-folding mark sits only on closed, undefined nodes
-RECURSIVE TruthfulFlags(_)
-TruthfulFlags(e) ==
-  /\ e.red => NoRuleApplies(e)
-  /\ e.ef => (~HasVars(e) /\ Val(e, <<>>).k \in {"undef", "unk"})
-  /\ \A j \in 1..Len(Kids(e)) : TruthfulFlags(Kids(e)[j])
+\* ---- what "rule-free" means (C11): no fold, no reducer applies at any node; and truthful memo flags:
+\* a flagged node is rule-free, a failed-folding mark sits only on closed, undefined nodes.
+\* One bottom-up pass: [hv = has variables, rf = subtree rule-free, tf = flags truthful in the subtree]
+RECURSIVE Info(_)
+Info(e) ==
+  IF IsLeaf(e) THEN [hv |-> e.op = "Variable", rf |-> TRUE, tf |-> TRUE]
+  ELSE LET ks == FoldLeft(LAMBDA acc, c: LET ic == Info(c) IN
+                            [hv |-> acc.hv \/ ic.hv, rf |-> acc.rf /\ ic.rf, tf |-> acc.tf /\ ic.tf],
+                          [hv |-> FALSE, rf |-> TRUE, tf |-> TRUE], Kids(e))
+           cv == IF ks.hv THEN Nx ELSE Val(e, <<>>)
+           rf == ks.rf /\ (ks.hv \/ cv.k \in {"undef","unk"}) /\ Reducers(e).e.op = "none"   \* "unk": folding may legitimately fail
+       IN [hv |-> ks.hv, rf |-> rf,
+           tf |-> ks.tf /\ (e.red => rf) /\ (e.ef => (~ks.hv /\ cv.k \in {"undef","unk"}))]
+NoRuleApplies(e) == Info(e).rf
+TruthfulFlags(e) == Info(e).tf
 
 \* ---- soundness of one step a -> b on a set of points (C08): defined stays defined, with the same value
 StepSoundAt(a, b, p) == LET va == Val(a,p) vb == Val(b,p) IN
